@@ -415,6 +415,19 @@ def check_hist(prop, tier, seed, replay=None):
             nill = 21 * 8 * (6 if tier == "quick" else 240)
             ill_lines, cr2 = fanout(exes[:1], seed, nill, tier, outdir2, budget, extra=["illdim"])
             crashes += cr2
+        # C11 also owns the "temporaries are released" clause on I/O error paths: the write-side fault plane of the fs engine
+        fs_viol, fs_children = [], 0
+        if prop == "C11":
+            bf = Builder()
+            fexe, fvs = build_fs(bf)
+            flines, cr3 = fanout(fexe, seed, 32 if tier == "quick" else 480, tier, os.path.join(bf.scratch, "out_fs"), budget, extra=["writeonly"])
+            crashes += cr3
+            for w, l in flines:
+                tag, d = kv(l)
+                if tag == "R":
+                    fs_children += int(d["children"])
+                elif tag == "V":
+                    fs_viol.append(d)
         for cc in crashes:
             rep.harness("hist worker %d exited with %d: %s" % (cc["worker"], cc["rc"], cc["tail"][-3:]))
         hashes, vl, probes, classes, per_scen = [], [], {}, {}, {}
@@ -468,6 +481,9 @@ def check_hist(prop, tier, seed, replay=None):
             process_violations(rep, exe, mine, None, outdir, seed, sig,
                                keep_pred=lambda l: l.startswith("#") or l.startswith("lib ") or l.startswith("world 0") or l.startswith("illdim"),
                                tag="-" + os.path.basename(exe))
+        if fs_viol:
+            process_violations(rep, fexe, fs_viol, None, outdir, seed, lambda v, s: "fs|%s|%s|%s" % (v.get("scen"), v.get("class"), v.get("func", "-")),
+                               keep_pred=lambda l: l.startswith("#") or l.startswith("lib ") or l.startswith("expect"), tag="-fs")
         samples = []
         per = (total + driver.NWORKERS - 1) // driver.NWORKERS
         for w in (0, 1, 7):
@@ -506,8 +522,9 @@ def check_hist(prop, tier, seed, replay=None):
                 rule="evaluations = executions of a probe call in one world with the allocator ledger and ASan/UBSan active (clauses 1, 3 and the sampled input clause) plus forked "
                      "ill-dimensioned calls (clause 2); distinct = distinct event-log hashes of runs + distinct ill-dimensioned wrappers",
                 samples=samples, runs=len(hashes), probe_calls=calls, outcome_classes=classes, runs_per_operation=per_scen,
-                illdim_runs=ill_runs, illdim_classes=ill_classes, illdim_wrappers=ill_scen,
-                fault_kinds_fired={"ill-dimensioned call to a checked wrapper": ill_runs, "dirty heap fill / recycling": worlds - len(hashes)},
+                illdim_runs=ill_runs, illdim_classes=ill_classes, illdim_wrappers=ill_scen, io_write_fault_child_runs=fs_children,
+                fault_kinds_fired={"ill-dimensioned call to a checked wrapper": ill_runs, "dirty heap fill / recycling": worlds - len(hashes),
+                                   "write fails (ENOSPC) / fopen fails / fclose fails during mzd_to_png": fs_children},
                 reach_probes=probes, probes_stuck_at_zero=stuck,
                 runs_per_hour=int((len(hashes) + ill_runs) / max(wall, 1e-3) * 3600), seeds_per_hour=int((len(hashes) + ill_runs) / max(wall, 1e-3) * 3600),
                 simulated_time="not applicable: no clock in this property",
@@ -526,6 +543,8 @@ def check_hist(prop, tier, seed, replay=None):
         return 2
     finally:
         b.cleanup()
+        if 'bf' in locals():
+            bf.cleanup()
 
 
 # ------------------------------------------------------------------ C16 (engine omp)
